@@ -341,12 +341,26 @@ def gen(tier, seed):
             if 'DerefMut' in st and 'Deref' not in st:
                 st.insert(0, 'Deref')
             xf = make_xf(st, ti + si)
-            split = (ti + si) % 2 == 1
-            sp = Spelling(force={'grouping': 1, 'traitorder': 1 + (ti + si) % 3}) if split else None
-            m = mk(f'm{n:04d}', f'{name} + bystanders {{{", ".join(st)}}}' + ('/separate #[educe] attributes, rotated' if split else ''), xf, sp)
+            style = (ti + si) % 3
+            sp = [None, Spelling(force={'grouping': 1, 'traitorder': 1 + (ti + si) % 3}), Spelling(force={'grouping': 0, 'traitorder': 1 + (ti + si) % 2})][style]
+            m = mk(f'm{n:04d}', f'{name} + bystanders {{{", ".join(st)}}}' + ['', '/separate #[educe] attributes, rotated', '/one #[educe] list, rotated'][style], xf, sp)
             if m is not None:
                 mods.append(m)
                 n += 1
+    # variant-level lists that carry two traits (`#[educe(Default, Debug(name = ..))]`): the Default marker on every variant in turn, the
+    # bystander first in one list, on the enum templates of Debug (bystander Default) and Default (bystander Debug)
+    for ti, (name, primary, cands, mk) in enumerate(templates()):
+        by = 'Default' if name.startswith('Debug:enum') else 'Debug' if name.startswith('Default:enum') else None
+        if by is None:
+            continue
+        for rot in range(3):
+            for order in (1, 2):
+                if tier == 'quick' and (rot + order) % 2 == 0 and by == 'Debug':
+                    continue
+                m = mk(f'm{n:04d}', f'{name} + bystanders {{{by}}}/one #[educe] list on the variant, rotated by {order}, marker rotation {rot}', make_xf([by], rot), Spelling(force={'grouping': 0, 'traitorder': order}))
+                if m is not None:
+                    mods.append(m)
+                    n += 1
     mods += differential_modules(n)
     return mods
 
